@@ -421,6 +421,91 @@ def clash_programs(pid0):
     return out
 
 
+def lazy_false_programs(pid0):
+    """`lazy_branches(false)` on the thread-spawning macros: the branch values are the closures to run, whatever way they are
+    written — closure literal, block that builds one (hoisted), variable, `fn` path, call returning `impl FnOnce`, closure
+    forwarded as a `$e:expr` fragment. Each runs on its own named thread."""
+    out = []
+    pid = pid0
+    spellings = [
+        ("literal", "", "move || { zt(10); Some(1u64) }", "move || { zt(11); Some(2u64) }"),
+        ("block", "", "{ let k = 1u64; move || { zt(10); Some(k) } }", "{ let k = 2u64; move || { zt(11); Some(k) } }"),
+        ("variable", "let c0 = move || { zt(10); Some(1u64) }; let c1 = move || { zt(11); Some(2u64) };", "c0", "c1"),
+        ("fn_path", "fn f0() -> Option<u64> { zt(10); Some(1) } fn f1() -> Option<u64> { zt(11); Some(2) }", "f0", "f1"),
+        ("call", "fn mk(id: u16, v: u64) -> impl FnOnce() -> Option<u64> + Send + 'static { move || { zt(id); Some(v) } }", "mk(10, 1)", "mk(11, 2)"),
+        ("fragment", "", None, None),
+    ]
+    for kind in ("join_spawn", "try_join_spawn", "spawn", "try_spawn"):
+        tr = kind.startswith("try_")
+        h = "map => |a, b| a + b" if tr else "then => |a: Option<u64>, b: Option<u64>| a.unwrap() + b.unwrap()"
+        rty = "Option<u64>" if tr else "u64"
+        exp = "Some(3u64)" if tr else "3u64"
+        for name, prelude, b0, b1 in spellings:
+            if name == "fragment":
+                prelude = "macro_rules! __lf { ($a:expr, $b:expr) => { %s! { lazy_branches(false) $a, $b, %s } } }" % (kind, h)
+                dsl = "/*via __lf!*/ lazy_branches(false) move || { zt(10); Some(1u64) }, move || { zt(11); Some(2u64) }, %s" % h
+                entry = (pid, kind, dsl, rty, exp, [(10, 11), (11, 12)], 100, "nest,lazyfalse,lazyfalse:%s,spawn" % name,
+                         "zn(10, \"main_join_0\"); zn(11, \"main_join_1\");", False, prelude + " let __via = 1;")
+            else:
+                dsl = "lazy_branches(false) %s, %s, %s" % (b0, b1, h)
+                entry = (pid, kind, dsl, rty, exp, [(10, 11), (11, 12)], 100, "nest,lazyfalse,lazyfalse:%s,spawn" % name,
+                         "zn(10, \"main_join_0\"); zn(11, \"main_join_1\");", False, prelude)
+            out.append(entry)
+            pid += 1
+    return out
+
+
+def scope_programs_2(pid0):
+    """More scope programs (C12 / C13).
+    (a) a `let`-named branch whose first value is a block, while another branch's *first value* is the caller's variable of
+        the same name: the branch name is not in scope in step 0.
+    (b) a block that reaches the macro as a `$e:expr` fragment is an ordinary operand (it is not "written as a block" at the
+        call site): it is evaluated in its place, with or without a `let` name on its branch (tickets show the order;
+        sequential macros only).
+    (c) the async try macros over `Option`s: `custom_joiner(::futures::join!) transpose_results(true)` with `map` /
+        `and_then` handlers, success and failure."""
+    out = []
+    pid = pid0
+    # (a)
+    for kind in ALL:
+        asy = kind in ASYNC
+        tr = kind.startswith("try_")
+        if asy:
+            continue
+        prelude = "let x = Some(100u32);"
+        br = ["let x = { Some(1u32) } |> |v| v + 1", "x |> |v| v + 5", "Some(0u32) ~|> { let k = x.unwrap(); move |v| v + k }"]
+        if tr:
+            h, rty, exp = "map => |a, b, c| (a, b, c)", "Option<(u32, u32, u32)>", "Some((2, 105, 2))"
+        else:
+            h, rty, exp = "then => |a, b, c| (a, b, c)", "(Option<u32>, Option<u32>, Option<u32>)", "(Some(2), Some(105), Some(2))"
+        out.append((pid, kind, ", ".join(br + [h]), rty, exp, [(1, 2)], 4, "scope,scope:named_block_head", "", False, prelude))
+        pid += 1
+    # (b)
+    for kind in ("join", "try_join"):
+        tr = kind.startswith("try_")
+        for named in (False, True):
+            nm = ("let a = ", "let b = ") if named else ("", "")
+            h = "map => |a, b| (a, b)" if tr else "then => |a, b| (a, b)"
+            prelude = ("let __tk = ::std::cell::Cell::new(0u32); let tick = || { __tk.set(__tk.get() + 1); Some(__tk.get()) }; "
+                       "macro_rules! __fb { ($e:expr) => { %s! { %stick() |> |v| v, %s$e |> |v| v, %s } } }" % (kind, nm[0], nm[1], h))
+            rty = "Option<(u32, u32)>" if tr else "(Option<u32>, Option<u32>)"
+            exp = "Some((1, 2))" if tr else "(Some(1), Some(2))"
+            dsl = "/*via __fb!({ tick() })*/ %stick() |> |v| v, %s{ tick() } |> |v| v, %s" % (nm[0], nm[1], h)
+            out.append((pid, kind, dsl, rty, exp, [(1, 2)], 4, "scope,scope:forwarded_block_%s,fwdblock" % ("named" if named else "unnamed"), "", False, prelude))
+            pid += 1
+    # (c)
+    for kind in ("try_join_async", "try_join_async_spawn", "try_async_spawn"):
+        # (`and_then` is built with TryFutureExt::and_then, which exists for Result outputs only: `map` is the handler here)
+        for hname, h, okexp in (("map", "map => |a, b| a + b", "Some(9u32)"), ("none", "", "Some((4u32, 5u32))")):
+            for fail in (False, True):
+                second = "futures::future::ready(%s) |> |o: Option<u32>| o" % ("None::<u32>" if fail else "Some(5u32)")
+                br = ["futures::future::ready(Some(1u32)) |> |o: Option<u32>| o.map(|v| v + 1) ~|> |o: Option<u32>| o.map(|v| v * 2)", second]
+                dsl = "custom_joiner(::futures::join!) transpose_results(true) " + ", ".join(br + ([h] if h else []))
+                out.append((pid, kind, dsl, "Option<u32>" if h else "Option<(u32, u32)>", ("None::<u32>" if h else "None::<(u32, u32)>") if fail else okexp, [(1, 2)], 4, "scope,scope:async_option_%s_%s" % (hname, "none" if fail else "some"), "", False, ""))
+                pid += 1
+    return out
+
+
 def render(entry):
     prelude = ""
     if len(entry) == 8:
@@ -442,6 +527,12 @@ def render(entry):
         ref_body = "%s %s let __res: %s = %s; __res" % ("zc(2);" if has_cap else "", ref_pre, rty, ref_final)
     if asy:
         m_fn = "pub fn m_%d() -> String { run_async(async { %s let __res: %s = %s! { %s }.await; dbg(__res) }) }" % (pid, prelude, rty, kind, dsl)
+        r_fn = "pub fn r_%d() -> String { dbg({ %s }) }" % (pid, ref_body)
+    elif "fwdblock" in tags:
+        m_fn = "pub fn m_%d() -> String { %s let __res: %s = __fb!({ tick() }); dbg(__res) }" % (pid, prelude, rty)
+        r_fn = "pub fn r_%d() -> String { dbg({ %s }) }" % (pid, ref_body)
+    elif "lazyfalse:fragment" in tags:
+        m_fn = "pub fn m_%d() -> String { %s let __res: %s = __lf!(move || { zt(10); Some(1u64) }, move || { zt(11); Some(2u64) }); dbg(__res) }" % (pid, prelude, rty)
         r_fn = "pub fn r_%d() -> String { dbg({ %s }) }" % (pid, ref_body)
     else:
         m_fn = "pub fn m_%d() -> String { %s let __res: %s = %s! { %s }; dbg(__res) }" % (pid, prelude, rty, kind, dsl)
@@ -498,6 +589,10 @@ def build_corpus(tier, seed):
         pid += 1
     # (d) scope programs: caller variables named like `let`-named branches, handler at every position
     entries += scope_programs(pid)
+    pid = max(e[0] for e in entries) + 1
+    entries += scope_programs_2(pid)
+    pid = max(e[0] for e in entries) + 1
+    entries += lazy_false_programs(pid)
     pid = max(e[0] for e in entries) + 1
     # (e) caller variables with names a macro might use internally
     entries += clash_programs(pid)
